@@ -19,7 +19,8 @@ RULE = ('(A) generated call histories on one long-lived instance per configurati
         'on_error parse, construction of other instances, Reconstructor use; after every completed call its outcome (tree with positions, '
         'or exception class and position) must equal that of the same call on a fresh instance. (B) owned thread schedules: two threads '
         'call parse/lex/scan on one freshly constructed instance under a sys.settrace scheduler that runs one thread at a time and switches '
-        'at chosen line events inside the functions that lazily initialise shared state; ALL schedules with <= 2 pre-emptions over the '
+        '(C) generated grammars with shaping features: one instance parses a series of inputs twice, each result equal to a fresh instance\'s and earlier results unchanged afterwards. '
+        'Schedules switch at chosen line events inside the functions that lazily initialise shared state; ALL schedules with <= 2 pre-emptions over the '
         'yield points are enumerated (<= 3 sampled in thorough); for the parser engines (Earley driver, forest-to-tree conversion, LALR driver) every '
         'single pre-emption at every line is enumerated; each thread\'s outcome must equal the sequential outcome. Non-trivial = '
         '(A) history with a failed or abandoned call before the checked one, (B) schedule with a pre-emption inside a lazily-'
@@ -267,14 +268,78 @@ def schedule_cases(max_points, k):
     return gen
 
 
+# ------------------------------------------------------------------ (C) generated grammars: one instance parses a series of inputs
+O_REUSE = None
+
+
+def reuse_cases():
+    from vlib import gramgen
+    global O_REUSE
+    O_REUSE = gramgen.Opts(terms='tok', max_rules=4, shaping=True, templates=True, ignore=True, acyclic=True)
+    return st.one_of(inline_first_cases(), st.tuples(gramgen.grammar_and_inputs(O_REUSE, max_len=8, n=4), st.booleans(), st.booleans()).map(
+        lambda t: {'g': t[0]['g'], 'texts': t[0]['texts'], 'mp': t[1], 'pp': t[2]}))
+
+
+# grammars around the tree builder's in-place child-list re-use: the first kept child of a rule is an inlined rule (or a repetition)
+# whose alternatives mix filtered tokens, kept tokens and [optional] placeholders
+INL_ALTS = ['"c" [A]', '[A] "c"', 'A [B]', '"c"', '[A] [B]', 'A+', '"c" B?', '[A "c"]', 'B', '"c" [A] [B]', '("c" | [B])']
+INL_HEADS = ['start: _i {T}*', 'start: _i {T}* -> al', 'start: x\n?x: _i {T}*', 'start: _i _i {T}?', 'start: (_i | {T}) {T}*', 'start: _j {T}*\n_j: _i [B]', '!start: _i {T}*']
+INL_TAILS = ['A', 'B', '"c"', '(A | B)', 'y']
+
+
+@st.composite
+def inline_first_cases(draw):
+    alts = draw(st.lists(st.sampled_from(INL_ALTS), min_size=1, max_size=3, unique=True))
+    head = draw(st.sampled_from(INL_HEADS)).replace('{T}', draw(st.sampled_from(INL_TAILS)))
+    gtext = head + '\n_i: ' + '\n    | '.join(alts) + '\ny: A B?\nA: "a"\nB: "b"\n%ignore " "\n'
+    texts = [''.join(draw(st.lists(st.sampled_from(['a', 'b', 'c', ' ']), max_size=5))) for _ in range(6)]
+    return {'gtext': gtext, 'texts': texts, 'mp': draw(st.integers(0, 3)) != 0, 'pp': draw(st.booleans())}
+
+
+@blame_lark
+def check_reuse(case, ctx):
+    """every parse on a long-lived instance equals the parse on a fresh instance, and trees returned earlier do not change afterwards
+    (per-rule callbacks, tree-builder state and caches live on the instance)"""
+    from vlib import gram
+    from lark.exceptions import GrammarError
+    gtext = case.get('gtext') or gram.render_grammar(case['g'])
+    for parser, lexer in (('lalr', 'contextual'), ('earley', 'basic'), ('earley', 'dynamic')):
+        kw = dict(parser=parser, lexer=lexer, maybe_placeholders=case['mp'], propagate_positions=case['pp'])
+        try:
+            p = Lark(gtext, **kw)
+        except GrammarError:
+            ctx.label('reuse:GrammarError'); continue
+        kept = []
+        for w in list(case['texts']) * 2:
+            outs = []
+            for q in (p, Lark(gtext, **kw)):
+                try:
+                    t = q.parse(w); outs.append(('ok', norm(t)))
+                    if q is p: kept.append((w, t, outs[-1]))
+                except UnexpectedInput as e:
+                    outs.append(err(e))
+            if outs[0] != outs[1]:
+                raise Violation('a re-used instance parses differently from a fresh instance', grammar=gtext, engine=[parser, lexer], options={'maybe_placeholders': case['mp'], 'propagate_positions': case['pp']},
+                                text=w, texts_before=[x[0] for x in kept][:-1], reused=str(outs[0])[:300], fresh=str(outs[1])[:300])
+        for w, t, snap in kept:
+            if ('ok', norm(t)) != snap:
+                raise Violation('a tree returned by an earlier parse() changed during later calls', grammar=gtext, engine=[parser, lexer], text=w,
+                                was=str(snap)[:300], now=str(norm(t))[:300])
+        if len(kept) >= 4:
+            ctx.nontrivial(['reuse', gtext, parser, lexer, case['mp'], case['pp'], case['texts']], sample={'grammar': gtext, 'engine': [parser, lexer], 'texts': case['texts']})
+    ctx.label('reuse:checked')
+
+
 def phases(tier):
     if tier == 'thorough':
         return [Phase('histories', 'hypothesis', strategy=histories(), max_examples=40000, check=check_history),
+                Phase('generated-grammars-reuse', 'hypothesis', strategy=reuse_cases(), max_examples=40000, check=check_reuse),
                 Phase('schedules-all-<=2-preemptions', 'enumerate', cases=schedule_cases(160, 2), exhaustive=True, check=check_schedule),
                 Phase('schedules-3-preemptions-sampled', 'hypothesis',
                       strategy=st.tuples(st.sampled_from(sorted(SCHED_CONFIGS)), st.lists(st.integers(0, 159), min_size=3, max_size=3, unique=True)).map(
                           lambda t: {'config': t[0], 'switch': sorted(t[1])}), max_examples=40000, check=check_schedule)]
     return [Phase('histories', 'hypothesis', strategy=histories(), max_examples=4000, check=check_history),
+            Phase('generated-grammars-reuse', 'hypothesis', strategy=reuse_cases(), max_examples=3000, check=check_reuse),
             Phase('schedules-all-<=2-preemptions', 'enumerate', cases=schedule_cases(90, 2), exhaustive=True, check=check_schedule)]
 
 
